@@ -94,26 +94,32 @@ Definition names_has (u : list bytes) (n : bytes) : bool := existsb (beq n) u.
 
 Record group := { g_exp : bytes; g_files : list lfile; g_earliest : Z }.
 
-(* reports(): countFiles[expiry] = append(..); earliest[expiry] is replaced
-   when it IsZero() or is After(begin) *)
-Fixpoint group_add (gs : list group) (exp : bytes) (f : lfile) (b : Z) : list group :=
-  match gs with
-  | [] => [ {| g_exp := exp; g_files := [f]; g_earliest := b |} ]
-  | g :: gs' =>
-      if beq (g_exp g) exp then
-        {| g_exp := exp; g_files := g_files g ++ [f];
-           g_earliest := if (g_earliest g =? zero_ns) || (b <? g_earliest g) then b else g_earliest g |} :: gs'
-      else g :: group_add gs' exp f b
-  end.
-
 Definition week_of (e : Z) : bytes := go_fmt_date (e / ns_per_day).   (* end.Format(DateOnly), UTC metadata *)
+Definition begin_of (f : lfile) : Z := match lf_span f with Some (b, _) => b | None => 0 end.
 
+(* reports(): a collected file is folded into the week of its end date when
+   end.Before(start); countFiles[expiry] = append(countFiles[expiry], f) and
+   earliest[expiry] (zero value: the zero time) is replaced by begin when it
+   IsZero() or is After(begin).  The map is rendered as: the distinct expiry
+   strings in order of first appearance, each with its files in order. *)
+Definition sel (start : Z) (wk : bytes) (f : lfile) : bool :=
+  match lf_span f with Some (_, e) => (e <? start) && beq (week_of e) wk | None => false end.
+Definition upd_earliest (cur b : Z) : Z := if (cur =? zero_ns) || (b <? cur) then b else cur.
+Fixpoint dedup (l : list bytes) : list bytes :=
+  match l with
+  | [] => []
+  | x :: r => x :: filter (fun y => negb (beq y x)) (dedup r)
+  end.
+Definition weeks_of (start : Z) (cnt : list lfile) : list bytes :=
+  dedup (flat_map (fun f => match lf_span f with
+                            | Some (_, e) => if e <? start then [week_of e] else []
+                            | None => []
+                            end) cnt).
+Definition group_of (start : Z) (cnt : list lfile) (wk : bytes) : group :=
+  let fl := filter (sel start wk) cnt in
+  {| g_exp := wk; g_files := fl; g_earliest := fold_left upd_earliest (map begin_of fl) zero_ns |}.
 Definition groups_of (start : Z) (cnt : list lfile) : list group :=
-  fold_left (fun gs f =>
-               match lf_span f with
-               | Some (b, e) => if e <? start then group_add gs (week_of e) f b else gs
-               | None => gs
-               end) cnt [].
+  map (group_of start cnt) (weeks_of start cnt).
 
 (* notNeeded(date, todo) *)
 Definition not_needed (date : bytes) (uploaded : option (list bytes)) (ready : list bytes) : bool :=
@@ -341,9 +347,7 @@ Definition spec_leftover_sendable (mode : bytes) (asof : option Z) (start : Z) (
 
 (* the count files whose data a week's report is built from *)
 Definition in_week (start : Z) (week : bytes) (f : lfile) : bool :=
-  has_suffix (lf_name f) count_suffix &&
-  match lf_span f with Some (_, e) => (e <? start) && beq (week_of e) week | None => false end.
-Definition begin_of (f : lfile) : Z := match lf_span f with Some (b, _) => b | None => 0 end.
+  has_suffix (lf_name f) count_suffix && sel start week f.
 Definition all_begin_after (a : Z) (fl : list lfile) : bool := forallb (fun f => day_ns a <? begin_of f) fl.
 
 (* is a request for /<fdate> allowed in this state? *)
